@@ -376,6 +376,47 @@ func runC03(c c03Case, r *rep.Report) (key, msg string, stats map[string]int64) 
 	return
 }
 
+// runC03UpgradeAfterClose: the candidate's upgrade packet arrives after the session's state
+// became closed, while an application close listener is still running.
+func runC03UpgradeAfterClose(cause string, r *rep.Report) (key, msg string) {
+	rig.Bubble(r.T(), func() {
+		so := &config.ServerOptions{}
+		so.SetTransports(types.NewSet("polling", "websocket"))
+		so.SetPingInterval(20 * time.Second)
+		w := rig.NewWorld(rig.Options{Server: so, OnConnection: func(s engine.Socket) {
+			s.On("close", func(...any) { time.Sleep(5 * time.Millisecond) })
+		}})
+		defer w.Shutdown()
+		cl, err := w.Connect(rig.ClientCfg{Rev: 4, Transport: "polling"})
+		rig.Wait()
+		sock := w.Socket(0)
+		if err != nil || sock == nil {
+			key, msg = "c03-handshake-failed", fmt.Sprint(err)
+			return
+		}
+		cl.StartReader()
+		cand := w.Candidate(sock.Id(), 4)
+		if cand.DialCandidateWS() != nil {
+			return
+		}
+		time.Sleep(time.Millisecond)
+		cand.WSWriteRaw(false, []byte("2probe"))
+		time.Sleep(time.Millisecond)
+		rig.Wait()
+		go fireCause(cause, w, cl, sock)
+		time.Sleep(time.Millisecond) // the close listener is sleeping now
+		cand.WSWriteRaw(false, []byte("5"))
+		time.Sleep(50 * time.Millisecond)
+		rig.Wait()
+		key, msg = judgeLifecycle(w, sock.Id(), []string{cause}, true)
+		if key == "" && (sock.Upgraded() || sock.Transport().Name() != "polling") {
+			key, msg = "c03-event-after-close:upgrade", fmt.Sprintf("a closed session switched transport: Upgraded()=%v transport %s", sock.Upgraded(), sock.Transport().Name())
+		}
+		cl.Stop()
+	})
+	return
+}
+
 func TestC03(t *testing.T) {
 	r := rep.New(t, "C03")
 	defer r.Flush()
@@ -409,6 +450,18 @@ func TestC03(t *testing.T) {
 			}
 			c.Order = []int{rng.IntN(3), rng.IntN(3), rng.IntN(3), rng.IntN(3)}
 			cases = append(cases, c)
+		}
+	}
+	if r.Lane == 0 {
+		for k := 0; k < r.N(4, 100); k++ {
+			for _, cause := range []string{"close-true", "peer-disconnect", "server-close", "transport-error"} {
+				key, msg := runC03UpgradeAfterClose(cause, r)
+				r.Case("upgrade-after-close/"+cause, true)
+				r.Obs("upgrade_after_close_cases", 1)
+				if key != "" {
+					r.Violation(key, msg, map[string]any{"lane": "upgrade packet lands after the state became closed, while an application close listener is running", "cause": cause})
+				}
+			}
 		}
 	}
 	rng := r.Rand(33)
